@@ -11,14 +11,15 @@ No funsor object ever enters these functions; data are drawn with numpy and hand
 """
 import itertools
 import math
+import os
 import sys
 import traceback
 from collections import OrderedDict
 
 import numpy as np
 
-if "/repo" not in sys.path:
-    sys.path.insert(0, "/repo")
+if os.environ.get("VERIF_REPO", "/repo") not in sys.path:
+    sys.path.insert(0, os.environ.get("VERIF_REPO", "/repo"))
 
 import funsor  # noqa: E402
 import funsor.ops as ops  # noqa: E402
@@ -82,7 +83,16 @@ class Semiring:
             return np.asarray(0.3 + 1.5 * rs.rand(*shape))
         if self.name == "add_mul":
             return np.asarray((0.4 + 1.1 * rs.rand(*shape)) * np.where(rs.rand(*shape) < 0.3, -1.0, 1.0))
-        return np.asarray(rs.randn(*shape))
+        arr = np.asarray(rs.randn(*shape))
+        if self.name == "logaddexp_add" and shape and shape[0] >= 2 and rs.rand() < 0.2:
+            # an impossible event: a whole slice at the semiring zero (log 0 = -inf), as in a transition matrix with a
+            # forbidden state; exact arithmetic on the extended reals is part of the semiring
+            arr = arr.copy()
+            ax = int(rs.randint(len(shape)))
+            idx = [slice(None)] * len(shape)
+            idx[ax] = int(rs.randint(shape[ax]))
+            arr[tuple(idx)] = -math.inf
+        return arr
 
     def power(self, arr, k):
         """k-fold semiring product of arr with itself (k integer >= 0)"""
@@ -1192,6 +1202,11 @@ def occ_table(sr, leaves, occ, probe=None):
         return data(occ[1])
     if kind == "ren":
         return nt_rename(data(occ[1]), dict(occ[2]))
+    if kind == "diag":
+        _, i, (pa, qa), new = occ
+        names, arr = data(i)
+        d = np.diagonal(arr, axis1=names.index(pa), axis2=names.index(qa))  # the diagonal axis comes last
+        return (tuple(n for n in names if n not in (pa, qa)) + (new,), d)
     if kind == "slice":
         _, i, t, new, start, step, m = occ
         names, arr = data(i)
@@ -1216,6 +1231,8 @@ def occ_funsor(fleaves, leaves, occ):
         return fleaves[occ[1]]
     if kind == "ren":
         return fleaves[occ[1]](**dict(occ[2]))
+    if kind == "diag":
+        return fleaves[occ[1]](**{occ[2][0]: occ[3], occ[2][1]: occ[3]})
     if kind == "slice":
         _, i, t, new, start, step, m = occ
         n = dict(zip(leaves[i][0], np.shape(leaves[i][1])))[t]
@@ -1372,6 +1389,8 @@ def occ_names(leaves, o):
     if o[0] == "ren":
         m = dict(o[2])
         return {m.get(n, n) for n in leaves[o[1]][0]}
+    if o[0] == "diag":
+        return {o[3] if n in o[2] else n for n in leaves[o[1]][0]}
     if o[0] in ("slice", "take"):
         return {o[3] if n == o[2] else n for n in leaves[o[1]][0]}
     if o[0] == "cat":
@@ -1414,7 +1433,7 @@ def check_adjoint(case, out):
     multi = len({(o[1] if o[0] != "cat" else o[1]) for o in occs}) < len(occs)
     if any(o[0] == "cat" and o[2] != o[3] for o in occs):
         kinds = kinds + ["cat-part-name"]
-    tags0 = [sr.name] + (["unrelated-var"] if adj_has_unrelated(leaves, occs, expr) else []) + [{"ren": "rename", "slice": "slice", "take": "index-tensor", "cat": "cat", "cat-part-name": "cat-part-name"}[k] for k in kinds] + (["repeated-leaf"] if multi else []) + (["sum-node"] if "'add'" in repr(expr) else []) + (["free-output"] if root_names else [])
+    tags0 = [sr.name] + (["unrelated-var"] if adj_has_unrelated(leaves, occs, expr) else []) + [{"ren": "rename", "diag": "diagonal", "slice": "slice", "take": "index-tensor", "cat": "cat", "cat-part-name": "cat-part-name"}[k] for k in kinds] + (["repeated-leaf"] if multi else []) + (["sum-node"] if "'add'" in repr(expr) else []) + (["free-output"] if root_names else [])
     key = (case["sr"], repr(case["leaves"]), repr(occs), repr(expr), case["seed"])
     nontrivial = len(occs) >= 2 and any(k >= 2 for _, arr in leaves for k in np.shape(arr))
     for mode in case.get("modes", ["reflect", "lazy", "reflect+optimizer"]):
